@@ -344,6 +344,9 @@ def known_findings(prop_id):
 
 
 def write_replay(prop_id, payload):
+    global REPLAYS
+    if ALT:
+        REPLAYS = os.path.join(BUILD, "replays")
     os.makedirs(REPLAYS, exist_ok=True)
     payload = dict(payload, repo=os.path.realpath(REPO))
     blob = json.dumps(payload, sort_keys=True, indent=1)
